@@ -21,6 +21,7 @@ from srcinfo import SrcInfo  # noqa
 from mirdb import MirDB  # noqa
 from engine import Engine, State, short_fn  # noqa
 import contracts  # noqa
+import contracts_async  # noqa  (registers the async/net/iterator contracts)
 
 
 def src_hash():
